@@ -1,4 +1,5 @@
 CONSTANT TransposeCapped = FALSE
+CONSTANT TransposeMinBatchCells = 0
 INIT Init
 NEXT Next
 INVARIANT Inv
